@@ -36,9 +36,6 @@ Proof. vm_compute. reflexivity. Qed.
 Lemma item_flags_match_code : model_item_flags = x_item_flags.
 Proof. vm_compute. reflexivity. Qed.
 
-Lemma pagination_matches_code : x_pagination = [("_limit is not None", "_limit_sql"); ("_offset", "_offset_sql")].
-Proof. vm_compute. reflexivity. Qed.
-
 Lemma distinct_matches_code : x_distinct = ("DISTINCT ", "").
 Proof. vm_compute. reflexivity. Qed.
 
